@@ -362,7 +362,7 @@ func (p *parser) parseBitTiming() (*BitTiming, error) {
 
 	baudrate, err := p.parseUint(t.value)
 	if err != nil {
-		return nil, err
+		return nil, p.errorf("cannot parse bit timing baudrate as uint")
 	}
 	bt.Baudrate = baudrate
 
@@ -376,7 +376,7 @@ func (p *parser) parseBitTiming() (*BitTiming, error) {
 	}
 	btr1, err := p.parseUint(t.value)
 	if err != nil {
-		return nil, err
+		return nil, p.errorf("cannot parse bit timing for register 1 as uint")
 	}
 	bt.BitTimingReg1 = btr1
 
@@ -390,7 +390,7 @@ func (p *parser) parseBitTiming() (*BitTiming, error) {
 	}
 	btr2, err := p.parseUint(t.value)
 	if err != nil {
-		return nil, err
+		return nil, p.errorf("cannot parse bit timing for register 2 as uint")
 	}
 	bt.BitTimingReg2 = btr2
 
